@@ -68,7 +68,7 @@ def own_dict(o):
     return 'dict(%s)' % ', '.join('%s=%s' % (p['n'], p['n']) for p in o if p['k'] not in ('var', 'vkw'))
 
 
-def render_stack(layers, base, kinds, fls, placement, reuse=False, sigattr=False):
+def render_stack(layers, base, kinds, fls, placement, reuse=False, sigattr=False, stepwise=False):
     """layers: outermost first, parameter lists WITHOUT the leading func parameter; kinds[k] in {'decorator', 'wrapper_decorator'};
     fls[k] = {'n', 'names'} how layer k calls the wrapped callable (decorator: n = 0, no names)"""
     L = ['import functools', 'from sigtools import wrappers, specifiers', '']
@@ -91,6 +91,21 @@ def render_stack(layers, base, kinds, fls, placement, reuse=False, sigattr=False
         # the decorated function already carries an explicit __signature__ (as modifiers.annotate leaves one)
         L += ['from sigtools import signatures', 'def with_sig(f):', '    f.__signature__ = signatures.signature(f)', '    return f', '']
         decos = decos + ['@with_sig']
+    if stepwise:
+        # the stack is built one layer at a time and every intermediate callable is INSPECTED before the next layer is applied
+        L += ['import inspect, sigtools', 'def PEEK(f):', '    for r in (inspect.signature, sigtools.signature):', '        try:', '            r(f)',
+              '        except Exception:', '            pass', '    return f', '']
+        steps = ['w = PEEK(%s(w))' % d[1:] for d in reversed(decos)]
+        if placement == 'function':
+            L += ['def w(%s):' % bparams, '    return locals()'] + steps + ['']
+        else:
+            L += ['class K(object):', '    def __bool__(self):', '        return False', '    def __len__(self):', '        return 0']
+            L += ['    def w(%s):' % bparams, '        return locals()'] + ['    ' + st for st in steps]
+            if placement == 'static':
+                L += ['    w = staticmethod(w)']
+            L += ['']
+        L += ['def base_raw(%s):' % bparams, '    return locals()', '']
+        return '\n'.join(L)
     if placement == 'function':
         L += decos + ['def w(%s):' % bparams, '    return locals()', '']
         L += ['def base_raw(%s):' % bparams, '    return locals()', '']
@@ -139,13 +154,13 @@ def shapes(names, maxpos):
                 yield np_, list(kw)
 
 
-def stack_event(tid, layers, base, kinds, fls, placement, kwmax=3, reuse=False, sigattr=False):
+def stack_event(tid, layers, base, kinds, fls, placement, kwmax=3, reuse=False, sigattr=False, stepwise=False):
     import sigtools
     from sigtools import signatures, wrappers
-    src = render_stack(layers, base, kinds, fls, placement, reuse, sigattr)
+    src = render_stack(layers, base, kinds, fls, placement, reuse, sigattr, stepwise)
     g, fname = progs.compile_module(src)
     e = {'tid': tid, 'op': 'wrapstack', 'layers': layers, 'base': base, 'kinds': kinds, 'fls': fls, 'placement': placement,
-         'case': {'layers': layers, 'base': base, 'kinds': kinds, 'fls': fls, 'placement': placement, 'src': src, 'reuse': reuse, 'sigattr': sigattr}}
+         'case': {'layers': layers, 'base': base, 'kinds': kinds, 'fls': fls, 'placement': placement, 'src': src, 'reuse': reuse, 'sigattr': sigattr, 'stepwise': stepwise}}
     try:
         n = len(layers)
         inst = None
@@ -192,7 +207,7 @@ def stack_event(tid, layers, base, kinds, fls, placement, kwmax=3, reuse=False, 
     return e
 
 
-def render_combination(funcs, wrapped_member=False):
+def render_combination(funcs, wrapped_member=False, forwarding_member=False):
     L = ['from sigtools import wrappers', '']
     for k, ps in enumerate(funcs, 1):
         L += ['def c%d(%s):' % (k, absig.render_params(ps)), "    return ('c%d', locals())" % k, '']
@@ -203,17 +218,23 @@ def render_combination(funcs, wrapped_member=False):
               'def raw_dd(func, *args, **kwargs):', "    return ('dd', func(*args, **kwargs))", '',
               'member0 = dd(wrappers.Combination(c1))']
         members[0] = 'member0'
+    if forwarding_member:
+        # the last member is reached through a plain function that forwards everything to it: its signature is known through discovery only
+        last = len(funcs)
+        kind = '/, ' if funcs[-1] and funcs[-1][0]['k'] == 'po' else ''
+        L += ['def fwd_member(arg, %s*args, **kwargs):' % kind, '    return c%d(arg, *args, **kwargs)' % last, '']
+        members[-1] = 'fwd_member'
     L += ['comb = wrappers.Combination(%s)' % ', '.join(members), '']
     return '\n'.join(L)
 
 
-def combination_event(tid, funcs, kwmax=3, wrapped_member=False):
+def combination_event(tid, funcs, kwmax=3, wrapped_member=False, forwarding_member=False):
     """funcs: parameter lists, each starting with the parameter that receives the previous result"""
     import sigtools
     from sigtools import signatures
-    src = render_combination(funcs, wrapped_member)
+    src = render_combination(funcs, wrapped_member, forwarding_member and not (wrapped_member and len(funcs) == 1))
     g, fname = progs.compile_module(src)
-    e = {'tid': tid, 'op': 'combination', 'funcs': funcs, 'case': {'funcs': funcs, 'src': src, 'wrapped_member': wrapped_member}}
+    e = {'tid': tid, 'op': 'combination', 'funcs': funcs, 'case': {'funcs': funcs, 'src': src, 'wrapped_member': wrapped_member, 'forwarding_member': forwarding_member}}
     try:
         comb = g['comb']
         fs = [g['c%d' % k] for k in range(1, len(funcs) + 1)]
